@@ -21,12 +21,14 @@ static inline void exc_maybe(void) { if (!g_exc && nondet_bool()) g_exc = 1; }
 #define TupV_MOVE(p) ({ exc_maybe(); TupV __t = *(p); (p)->a0.id = nondet_int(); __t; })
 #define TupW_COPY(p) ({ exc_maybe(); *(p); })
 #define TupW_MOVE(p) ({ exc_maybe(); TupW __t = *(p); (p)->a0.id = nondet_int(); __t; })
-/* the ghost "an item of kind k is live in the witness slot" follows the type tag */
-#define SLOT_SET_dtor(s, v) ((s)->dtor = (v), ((IS_W(s) && (v) != NULL) ? (g_kind = ((v) == TAGV ? 1 : 2), g_kind_was = g_kind) : 0), (s)->dtor)
+/* the ghost "an item of kind k is live in the witness slot" is set when the item's constructor RETURNS normally on the
+ * slot's buffer (exit hook of the extracted move constructor), not when BufferedUnion::set is entered */
 #undef FN_ENTRY_Slot_set__ItemV
 #undef FN_ENTRY_Slot_set__ItemW
 #define FN_ENTRY_Slot_set__ItemV do { if (IS_W(self)) { __CPROVER_assert(g_kind == 0, "payload lifetime: no construction over a live item"); g_argid = item->arguments.a0.id; g_event = item->base_ItemBase.event; g_disp = 0; g_pred = 0; } } while (0)
 #define FN_ENTRY_Slot_set__ItemW FN_ENTRY_Slot_set__ItemV
+#define FN_EXIT_ItemV_ctor_move do { if ((void *)self == (void *)&g_S0.buffer && !g_exc) { g_kind = 1; g_kind_was = 1; } } while (0)
+#define FN_EXIT_ItemW_ctor_move do { if ((void *)self == (void *)&g_S0.buffer && !g_exc) { g_kind = 2; g_kind_was = 2; } } while (0)
 #define SLOT_SET_CONTRACT(T, TAG, K, PAY) \
   __CPROVER_requires(__CPROVER_pointer_equals(self, &g_S0) && __CPROVER_is_fresh(item, sizeof(T)) && SLOT_FREE_M && !g_exc) \
   __CPROVER_assigns(g_S0, item->arguments.a0.id, g_kind, g_kind_was, g_argid, g_event, g_disp, g_pred, g_exc) \
@@ -35,4 +37,31 @@ static inline void exc_maybe(void) { if (!g_exc && nondet_bool()) g_exc = 1; }
                              SB->callableIndex == __CPROVER_old(item->base_ItemBase.callableIndex) && SB->dispatcher == __CPROVER_old(item->base_ItemBase.dispatcher)))
 #define CONTRACT_Slot_set__ItemV SLOT_SET_CONTRACT(ItemV, TAGV, 1, SV)
 #define CONTRACT_Slot_set__ItemW SLOT_SET_CONTRACT(ItemW, TAGW, 2, SW)
+/* on an unwinding edge a thread-local list may die holding slots: they are freed, and an item still constructed in one
+ * is destroyed through its stored destructor (exactly once: assertion in fnptr_call_dtor).  Which events may be
+ * discarded that way is the business of each contract (enqueue: none) */
+static inline void wl_dtor_exc(WList *l) { if (l->w >= 0) { Slot_dtor(&g_S0); g_dead = 1; l->w = -1; } l->len = 0; }
+#undef WLIST_DTOR
+#define WLIST_DTOR(l) wl_dtor_exc(l)
+/* emplace_back allocates */
+#undef WLIST_EMPLACE_BACK
+#define WLIST_EMPLACE_BACK(l) do { exc_maybe(); if (!g_exc) wl_emplace_back(l); } while (0)
+/* enqueue: strong guarantee.  If copying the arguments, allocating a slot or moving the item into it raises, the
+ * pending events are exactly as before (same number, the witness event at its place and intact), nobody was notified,
+ * the caller's lvalue argument is untouched, no mutex is held; otherwise the sequential postcondition */
+#undef CONTRACT_HQ_doEnqueue
+#undef CONTRACT_HQ_doEnqueue__eventpp_ArgumentPassingExcludeEvent_int
+#define HQ_ENQ_EXC(KIND, AT) \
+  __CPROVER_requires(HQ_FRESH(self) && __CPROVER_is_fresh(first, sizeof(int)) && __CPROVER_is_fresh(args, sizeof(AT))) \
+  __CPROVER_requires(NOLOCKS(self) && hq_ok(self) && HQ_SMALL(self) && !g_cur_is_w && !g_exc) \
+  __CPROVER_assigns(ENQ_FRAME, g_exc) \
+  __CPROVER_ensures(NOLOCKS(self) && hq_ok(self) && args->id == __CPROVER_old(args->id)) \
+  __CPROVER_ensures(g_exc ==> (self->queueList.len == __CPROVER_old(self->queueList.len) && self->queueList.w == __CPROVER_old(self->queueList.w) && \
+                               (__CPROVER_old(self->queueList.w) >= 0 ==> SLOT_QUEUED_M) && \
+                               self->queueListConditionVariable.notified == __CPROVER_old(self->queueListConditionVariable.notified))) \
+  __CPROVER_ensures(!g_exc ==> (self->queueList.len == __CPROVER_old(self->queueList.len) + 1 && \
+                                (__CPROVER_old(self->queueList.w) >= 0 ==> self->queueList.w == __CPROVER_old(self->queueList.w)) && \
+                                (self->queueList.w == __CPROVER_old(self->queueList.len) ==> (g_kind == (KIND) && g_kind_was == (KIND) && g_argid == __CPROVER_old(args->id) && g_event == __CPROVER_old(*first) && SLOT_QUEUED_M))))
+#define CONTRACT_HQ_doEnqueue HQ_ENQ_EXC(1, VArg)
+#define CONTRACT_HQ_doEnqueue__eventpp_ArgumentPassingExcludeEvent_int HQ_ENQ_EXC(2, WArg)
 #endif
